@@ -63,6 +63,11 @@ def run_rules(prop: str, repo: Repo) -> Result:
         ctx.result.analysed["modules_parsed"] = len(repo.modules)
         ctx.result.analysed["functions_parsed"] = sum(1 for _ in repo.all_functions())
         ctx.result.analysed["locals_alpha_renamed"] = repo.alpha_renamed
+        eq = getattr(repo, "equiv_stats", {}) or {}
+        ctx.result.analysed["functions_differing_from_reference_tree"] = sorted(eq.get("changed", []))
+        ctx.result.analysed["functions_proved_equivalent_to_reference"] = sorted(eq.get("proved_equivalent", []))
+        if eq.get("errors"):
+            ctx.result.analysed["equivalence_pass_errors"] = eq["errors"]
     except Exception:  # pragma: no cover
         pass
     return ctx.result
